@@ -200,9 +200,9 @@ var specs = map[string]spec{
 		Rule:      "states = thread-operation scenarios (ordered pairs/triples of operations) + solo operations; transitions = complete schedules executed (counter schedules) + digested solo steps; every scenario is non-trivial (>=2 threads contend for the same compiled bundle)",
 		Bounds: map[string]string{
 			"quick":    "12 operations; all 144 ordered pairs on 2 threads; every schedule with <=1 preemption at every 4th yield point (every point inside a critical section) and <=2 preemptions at every 32nd (48th / 96th when one / both operations compile a bundle); a non-canonical successor at a blocking switch counts as a deviation; solo digest every third step; race pass 144 scenarios x 3 goroutines x 30 cold starts",
-			"thorough": "3 threads; every schedule with <=1 preemption at every instrumented point (every 4th when an operation compiles a bundle) and <=2 preemptions at every 12th (96th / 192nd with one / more compiling operations), each capped at 2000000 schedules per worker and scenario; scenarios are started until the 50-minute soft deadline (then exhaustive:false); race pass x 200 cold starts",
+			"thorough": "3 threads; every schedule with <=1 preemption at every instrumented point (every 4th when an operation compiles a bundle) and <=2 preemptions at every 12th (96th / 192nd with one / more compiling operations), each capped at 2000000 schedules per worker and scenario; scenarios are started until the 20-minute soft deadline (then exhaustive:false); race pass x 200 cold starts",
 		},
-		Assumptions: commonAssumptions, Plain: true, QuickStride: 1, ThoroughStride: 1, QuickDeadline: 420, ThoroughDeadline: 3000, Race: true, OrderSensitive: true,
+		Assumptions: commonAssumptions, Plain: true, QuickStride: 1, ThoroughStride: 1, QuickDeadline: 420, ThoroughDeadline: 1200, Race: true, OrderSensitive: true,
 	},
 	"C04": {
 		LevelText: "translation validation by execution, for every program of a bounded space: the C01 expression strata, the C02 command/scoping/call grammar with every data assignment, messages and plurals without and with an identity and a reordering bundle, and autoescape modes x directive chains across two namespaces, each filtered to the subset both backends define; every program is rendered by the Go renderer, translated by the JavaScript generator, loaded with soyutils.js into the otto interpreter and called with the same JSON data and injected data; the two strings must be equal (the reference interpreter names the side that is wrong)",
